@@ -559,6 +559,8 @@ CONSTANTS
   MaxCrashes = @MaxCrashes@
   MaxSnapshots = 1
   MaxBackups = @MaxBackups@
+  MaxWipes = @MaxWipes@
+  TransferWritesWAL = TRUE
   RebuildCacheOnRestore = TRUE
   QueryExcludesApply = TRUE
   BackupExcludesApply = TRUE
@@ -570,14 +572,19 @@ INVARIANT NoVersionPanic
 INVARIANT CacheCoherent
 INVARIANT QueryConsistent
 INVARIANT BackupExact
+INVARIANT WalServesEveryone
 PROPERTY AppendOnly
 VIEW View
 SYMMETRY Symm
 CHECK_DEADLOCK FALSE
 """
 mc_cluster = mc_stage("MC_Cluster", MCC_CFG,
-                      quick={"Nodes": "n1, n2", "MaxLog": 3, "MaxCrashes": 1, "MaxBackups": 1},
-                      thorough={"Nodes": "n1, n2, n3", "MaxLog": 3, "MaxCrashes": 1, "MaxBackups": 1}, timeout=7000)
+                      quick={"Nodes": "n1, n2", "MaxLog": 3, "MaxCrashes": 1, "MaxBackups": 1, "MaxWipes": 0},
+                      thorough={"Nodes": "n1, n2, n3", "MaxLog": 3, "MaxCrashes": 1, "MaxBackups": 1, "MaxWipes": 0}, timeout=9000)
+# state transfer incl. a follower whose disk is replaced and a WAL built from received transfers (C09)
+mc_cluster_wipe = mc_stage("MC_Cluster", MCC_CFG, tag="mc_MC_Cluster_wipe",
+                           quick={"Nodes": "n1, n2", "MaxLog": 3, "MaxCrashes": 1, "MaxBackups": 0, "MaxWipes": 1},
+                           thorough={"Nodes": "n1, n2", "MaxLog": 3, "MaxCrashes": 1, "MaxBackups": 1, "MaxWipes": 1}, timeout=9000)
 
 RULE_CLUSTER = ("MC: Cluster.tla (committed log, per-node durable store / volatile caches / raft applied index, "
                 "ApplyCompute and ApplyPersist as separate steps, Crash at any point, Restart with replay filter, raft snapshot + compaction, "
@@ -614,7 +621,9 @@ PLANS = {
                 "a balloon of 1000..3900 events (one hyper cache tile per event) reopened with 999 / 1000 / 1001 / mid-page / multi-page tile counts "
                 "(the cache warm-up reads 1000 tiles per page), then inserted into and queried; MC_Hyper: the incremental hyper tree used for these "
                 "traces is the canonical one for every insertion sequence of a 9-key 8-bit universe up to MaxLen"),
-    "C09": plan("model_checking", [mc_cluster, cluster_tv("restore", 4, 16)], RULE_CLUSTER),
+    "C09": plan("model_checking", [mc_cluster, mc_cluster_wipe, cluster_tv("restore", 4, 16)], RULE_CLUSTER + "; MC with Wipe (a stopped node's disk is replaced) and WalServesEveryone: every idle "
+                "node can bring any node holding a prefix of its events up to date from its own WAL, whatever mixture of own insertions and received transfers built it "
+                "(fails for TransferWritesWAL = FALSE)"),
     "C10": plan("model_checking", [mc_cluster, cluster_tv("window", 6, 16), cluster_tv("replicas", 2, 6),
                                    race_stage([("cluster", ["-scenario", "window"]), ("cluster", ["-scenario", "replicas"]), ("cluster", ["-scenario", "backup"]), ("api", [])])],
                 RULE_CLUSTER + "; thorough tier: the window / replicas / backup / HTTP scenarios once more under the Go race detector (reports between two QED sites count); window scenario: the gated store "
